@@ -689,6 +689,20 @@ package middleware
 //@ ensures [C09:fresh] result1 ==> fresh(result0) && result0.Consumer == nil && result0.Producer == nil && result0.Authenticator == nil
 //@ ensures [C01:entry] result1 ==> result0.Handler == unboxptr(ret(RL,0,0), "*routeEntry").Handler && result0.PathPattern == unboxptr(ret(RL,0,0), "*routeEntry").PathPattern && result0.Operation == unboxptr(ret(RL,0,0), "*routeEntry").Operation && result0.Consumers == unboxptr(ret(RL,0,0), "*routeEntry").Consumers && result0.Producers == unboxptr(ret(RL,0,0), "*routeEntry").Producers && result0.Binder == unboxptr(ret(RL,0,0), "*routeEntry").Binder && result0.Authenticators == unboxptr(ret(RL,0,0), "*routeEntry").Authenticators && result0.Authorizer == unboxptr(ret(RL,0,0), "*routeEntry").Authorizer && result0.Produces == unboxptr(ret(RL,0,0), "*routeEntry").Produces && result0.Consumes == unboxptr(ret(RL,0,0), "*routeEntry").Consumes
 //@ ensures [C01:decoded] result1 ==> forall i int :: 0 <= i && i < len(ret(RL,0,1)) ==> called(PU,i) && arg(PU,i,0) == ret(RL,0,1)[i].Value
+// a placeholder that fills its path segment alone (the pattern continues with '/' or ends after it) is handed over by name
+// with the percent-decoded text (the raw text when it does not decode); composite segments go through decodeCompositParams
+//@ watch IX = call strings.Index tag rangeindex+1
+//@ spec pat() := unboxptr(ret(RL,0,0), "*routeEntry").PathPattern
+//@ spec xpos(i) := ret(IX,i,0) + len(ret(RL,0,1)[i].Name) + 2
+//@ spec direct(i) := !(xpos(i) < len(pat()) && pat()[xpos(i)] != '/')
+//@ spec decodedVal(i) := (ret(PU,i,1) == nil ? ret(PU,i,0) : ret(RL,0,1)[i].Value)
+//@ ensures [C01:params] result1 && calls(DC) == 0 ==> len(result0.Params) == len(ret(RL,0,1)) && forall i int :: 0 <= i && i < len(ret(RL,0,1)) ==> result0.Params[i].Name == ret(RL,0,1)[i].Name && result0.Params[i].Value == decodedVal(i)
+// (a composite placeholder always goes through decodeCompositParams: loop invariant below; the converse made the solvers time out)
+//@ loop 1 invariant [C01:params] forall i int :: called(IX,i) ==> 0 <= i && i <= rangeindex
+//@ loop 1 invariant [C01:params] forall i int :: 0 <= i && i <= rangeindex && !direct(i) ==> calls(DC) >= 1
+//@ loop 1 invariant [C01:params] calls(DC) == 0 ==> len(params) == rangeindex + 1
+//@ loop 1 invariant [C01:params] calls(DC) == 0 ==> forall i int @pat(params[i].Name) :: 0 <= i && i <= rangeindex ==> params[i].Name == rp[i].Name
+//@ loop 1 invariant [C01:params] calls(DC) == 0 ==> forall i int @pat(params[i].Value) :: 0 <= i && i <= rangeindex ==> params[i].Value == decodedVal(i)
 //@ loop 1 invariant calls(RL) == 1 && ret(RL,0,1) == rp && ret(RL,0,2) && calls(TU) == 1 && calls(CL) == 1 && (params == nil || fresh(params)) && calls(DC) >= 0
 //@ loop 1 invariant forall i int :: called(PU,i) ==> 0 <= i && i <= rangeindex
 //@ loop 1 invariant forall i int :: 0 <= i && i <= rangeindex ==> called(PU,i) && arg(PU,i,0) == rp[i].Value
